@@ -224,6 +224,7 @@ bool prop_C05(Tape& t, Report& rep)
         }
         // fault (b): poison the table at the keys of the root, its children and grandchildren
         int poisoned = 0;
+        std::string poisonDesc;
         if (!sparse && t.chance(1, 3))
         {
             int np = 1 + int(t.choose(12));
@@ -246,8 +247,11 @@ bool prop_C05(Tape& t, Report& rep)
                     target = ref::make(target, ms[t.choose(uint32_t(ms.size()))]);
                 }
                 Position tp = br::from_fen(target);
+                // scores the engine itself can store: anything from "mated now" to "mate now" (±VALUE_INFINITE is the search's
+                // initial bound and never ends up in an entry; a root entry holding it makes the full window "fail", which no
+                // table content left by this engine can do)
                 static const int64_t SC[] = {0, 1, -1, 500, -500, 100000, VALUE_KNOWN_WIN, -VALUE_KNOWN_WIN, VALUE_MATE, -VALUE_MATE, VALUE_MATE - 3,
-                                             -(VALUE_MATE - 3), VALUE_INFINITE, -VALUE_INFINITE};
+                                             -(VALUE_MATE - 3), VALUE_MATE - 40, -(VALUE_MATE - 40)};
                 int64_t score = SC[t.choose(14)];
                 int depth = int(t.choose(61));
                 tt::Flag flag = tt::Flag(t.choose(3));
@@ -263,8 +267,10 @@ bool prop_C05(Tape& t, Report& rep)
                 if (t.chance(1, 3)) S.ttable->updateEpoch(1);  // some entries belong to an older epoch
                 S.ttable->insert(tp.hash(), e);
                 ++poisoned;
+                poisonDesc += " [" + std::to_string(hops) + " plies below the root: score " + std::to_string(score) + " depth " + std::to_string(depth) + " flag " +
+                              std::to_string(int(flag)) + "]";
             }
-            faults += " poisoned=" + std::to_string(poisoned);
+            faults += " poisoned=" + std::to_string(poisoned) + poisonDesc;
         }
         std::string desc = "position fen " + ref::to_fen(root.cur) + " ; " + sl::limits_str(lim, pos) + faults;
         history += (history.empty() ? "" : " || ") + desc;
